@@ -286,6 +286,10 @@ def run(ctx):
     _run_rules(ctx)
     from .. import boundaries
     boundaries.check(ctx, 'C18.RB', 'C18')
+    from . import C03
+    C03.r7_drop_paths(ctx, 'C18.R9')  # events buffered for a stream whose reader is gone are always drained from the shared slab
+    from . import C17
+    C17.r10_remember_after_reset(ctx, 'C18.R10')
     boundaries.check_inits(ctx, 'C18.RI', 'C18')
     boundaries.check_codes(ctx, 'C18.RE', 'C18')
     boundaries.check_writes(ctx, 'C18.RW', 'C18')
